@@ -24,6 +24,8 @@ PART = None
 def setup():
     models.install_slice_model()
     models.install_quiet_format()
+    from vf import nixfake
+    nixfake.install()          # only direct_array_index runs on fakeh5; the other obligations use doubles
 
 
 # ---------------------------------------------------------------------------
@@ -489,6 +491,155 @@ def _ob_read_shape(si: int, ei: int, k: int) -> bool:
     return tuple(np.asarray(got).shape) == tuple(wshape)
 
 
+
+# ---------------------------------------------------------------------------
+# 8. index expressions applied DIRECTLY to a DataArray (no view in between): the elements
+#    returned are the ones NumPy selects.  Real DataSet.__getitem__ -> H5DataSet.read_data on
+#    a fakeh5 dataset holding distinct values.          PART = (shape, tuple length T, gpos)
+#    kinds of all entries symbolic (int / slice / Ellipsis); ints symbolic; the slice at
+#    position gpos is general: start and stop symbolic (unbounded), step from a table.
+# ---------------------------------------------------------------------------
+_DSHAPES = [(3, 4), (2, 3, 2)]
+
+
+def _nested(shape, base=0, mul=1):
+    if len(shape) == 1:
+        return [float(base + i) for i in range(shape[0])]
+    stride = 1
+    for x in shape[1:]:
+        stride *= x
+    return [_nested(shape[1:], base + i * stride) for i in range(shape[0])]
+
+
+def _gather(x, sels):
+    if not sels:
+        return x
+    s = sels[0]
+    if isinstance(s, list):
+        return [_gather(x[i], sels[1:]) for i in s]
+    return _gather(x[s], sels[1:])
+
+
+def _direct_case(da, shape, entries):
+    """-> True iff da[entries] returns what NumPy's rule selects (or refuses when NumPy refuses)"""
+    want = _expected_tuple(entries, [(0, n) for n in shape])
+    try:
+        got = da[entries if len(entries) != 1 else entries[0]]
+    except IndexError:
+        return want[0] == "err"
+    if want[0] == "err":
+        return False
+    sels = []
+    for d, e in enumerate(want[1]):
+        if e[0] == "i":
+            sels.append([j for j in range(shape[d]) if j == e[1]][0])
+        else:
+            sels.append([j for j in range(shape[d]) if _in_slice(j, e[1], e[2], e[3])])
+    exp = _gather(_nested(shape), sels)
+    if not isinstance(exp, list):
+        exp = [exp]                      # nixio hands a single element out as a 1-element array
+    g = got.tolist() if hasattr(got, "tolist") else got
+    return _plainf(g) == exp
+
+
+def _plainf(v):
+    from vf import fakeh5
+    if isinstance(v, fakeh5._FScalar):
+        return [float(v.value)]
+    if isinstance(v, (list, tuple)):
+        return [(_plainf(x) if isinstance(x, (list, tuple)) else float(x)) for x in v]
+    return [float(v)]
+
+
+_STEPS = [None, 1, 2, 3, 5]
+_ENDS = [None, 1, -1]
+
+
+def _ob_direct(k0: int, k1: int, k2: int, v0: int, v1: int, v2: int,
+               a: int, an: bool, b: int, bn: bool, ci: int) -> bool:
+    """
+    pre: 0 <= ci < 5
+    post: __return__
+    """
+    from vf import nixfake
+    from vf.ob import untraced
+    shape, T, gpos, general = PART
+    ks, vs = (k0, k1, k2), (v0, v1, v2)
+    c = None
+    for j, cc in enumerate(_STEPS):
+        if ci == j:
+            c = cc
+    if not general:
+        # placement of a stepped slice at every tuple position: start and stop from a table
+        assume(not an and not bn and 0 <= a < 3 and 0 <= b < 3)
+        for j, e in enumerate(_ENDS):
+            if a == j:
+                a_ = e
+            if b == j:
+                b_ = e
+        a, b, an, bn = a_, b_, a_ is None, b_ is None
+    entries = []
+    for j in range(T):
+        assume(0 <= ks[j] <= 2)
+        if ks[j] == 0:
+            entries.append(vs[j])
+        elif ks[j] == 1:
+            entries.append(slice(None if an else a, None if bn else b, c) if j == gpos else slice(None))
+        else:
+            entries.append(Ellipsis)
+    if gpos is not None:
+        assume(ks[gpos] == 1)
+    else:
+        assume(ci == 0 and an and bn)
+    nixfake.begin()
+    with untraced():
+        import nixio
+        f = nixio.File("/v/c06.nix", "w")
+        da = f.create_block("b", "t").create_data_array("a", "t", data=_nested(shape))
+    return _direct_case(da, shape, tuple(entries))
+
+
+def _replay_direct(args):
+    import os
+    import shutil
+    import tempfile
+    from vf import nixfake
+    shape, T, gpos, general = PART
+    ks, vs = (args["k0"], args["k1"], args["k2"]), (args["v0"], args["v1"], args["v2"])
+    c = _STEPS[args["ci"]]
+    a, b, an, bn = args["a"], args["b"], args["an"], args["bn"]
+    if not general:
+        a, b = _ENDS[a], _ENDS[b]
+        an, bn = a is None, b is None
+    entries = []
+    for j in range(T):
+        if ks[j] == 0:
+            entries.append(vs[j])
+        elif ks[j] == 1:
+            entries.append(slice(None if an else a, None if bn else b, c)
+                           if j == gpos else slice(None))
+        else:
+            entries.append(Ellipsis)
+    nixfake.uninstall()
+    tmp = tempfile.mkdtemp(prefix="vf_c06d_")
+    try:
+        import nixio
+        f = nixio.File.open(os.path.join(tmp, "t.nix"), nixio.FileMode.Overwrite)
+        da = f.create_block("b", "t").create_data_array("a", "t", data=_nested(shape))
+        try:
+            ok = _direct_case(da, shape, tuple(entries))
+            detail = {"expr": repr(tuple(entries)), "shape": list(shape), "holds_on_real_stack": ok}
+        except Exception:  # noqa
+            import traceback
+            ok = False
+            detail = {"expr": repr(tuple(entries)), "raised_on_real_stack": traceback.format_exc()[-800:]}
+        f.close()
+        return (not ok), detail
+    finally:
+        nixfake.install()
+        shutil.rmtree(tmp, ignore_errors=True)
+
+
 # ---------------------------------------------------------------------------
 # real-stack replay: through the public API on a real HDF5 file, against NumPy
 # ---------------------------------------------------------------------------
@@ -718,6 +869,22 @@ OBLIGATIONS = [
        replay=_replay_write),
     Ob("read_shape_rule", _ob_read_shape, timeout=120,
        functions=["nixio.data_array.DataArray._read_data", "nixio.data_set.DataSet.__getitem__"]),
+    Ob("direct_array_index", _ob_direct, timeout=600,
+       partition_by_tier={
+           "quick": [((3, 4), 1, 0, True), ((3, 4), 2, 0, False), ((3, 4), 2, 1, False), ((3, 4), 2, None, False),
+                     ((3, 4), 3, 2, False), ((3, 4), 3, 1, False), ((2, 3, 2), 2, 1, False),
+                     ((2, 3, 2), 3, 2, False)],
+           "thorough": [(sh, T, g, False) for sh in _DSHAPES for T in range(1, len(sh) + 2)
+                        for g in [None] + list(range(T)) if T <= 3] +
+                       [((3, 4), 1, 0, True), ((3, 4), 2, 1, True), ((2, 3, 2), 1, 0, True)]},
+       functions=["nixio.data_set.DataSet.__getitem__", "nixio.data_set.DataSet._read_data",
+                  "nixio.hdf5.h5dataset.H5DataSet.read_data"],
+       replay=_replay_direct,
+       outside="two array shapes ((3, 4) and (2, 3, 2)); one stepped slice per expression (step in {None, 1, 2, 3, 5}; "
+               "start / stop any integer or None in the 'general' partitions, from {None, 1, -1} in the placement "
+               "partitions), the other slices full; reads only (writes: "
+               "C01 index_passthrough); fakeh5's selection semantics are pinned to h5py by the differential "
+               "script and every counterexample is replayed on a real file"),
     Ob("h5py_refusal_is_indexerror", _ob_error_mapping, timeout=60,
        functions=["nixio.hdf5.h5dataset.H5DataSet.read_data"]),
 ]
